@@ -219,6 +219,16 @@ def run_case(case):
             plans.append((tuple(pick), sp2))
     ncmp = 0
     for names, sp2 in plans:
+        if "empty_schedule" in names and rng.random() < 0.5:
+            # same window, a real schedule: whatever it leaves behind must not fill the empty one
+            import datetime as dt
+
+            nb = copy.deepcopy(sp2)
+            s0, n = S.d(nb["start"]), (S.d(nb["end"]) - S.d(nb["start"])).days
+            nb["irr"]["schedule"] = [[gen.fmt(s0 + dt.timedelta(days=int(k))), 25.0] for k in range(2, n, 7)]
+            sim.run(nb, opts=dict(ledger=False, irr=False))
+            cov["executions"] += 1
+            cov["neighbours_with_schedule"] += 1
         P = sim.run(sp2, opts=dict(ledger=False, irr=False))
         cov["executions"] += 1
         label = " + ".join(names)
